@@ -48,6 +48,13 @@ impl DomainGovernanceDocument {
   }
 }
 
+#[cfg(rustdds_verif)]
+impl DomainGovernanceDocument {
+  pub(crate) fn verif_rules(&self) -> &[DomainRule] {
+    &self.domain_access_rules
+  }
+}
+
 #[derive(Debug, Clone)]
 pub struct DomainRule {
   pub domains: Vec<DomainIds>,
